@@ -1,8 +1,12 @@
-"""C24 — xlsx export then import preserves the workbook: the STRING-ESCAPING CODEC part only"""
+"""C24 — xlsx export then import preserves the workbook: proved codecs (escaping, cell types, formula text) + whole-workbook oracle"""
 from common import *
 
 ASSUMPTIONS = [
-  "SCOPE: only the escaping codec of C24 is claimed so far (escape_xml, the XML parser's entity resolution, decode_xlsx_escapes on shared strings); cell types, formulas, styles and the container are not covered yet",
+  "PROVED: the escaping codec, the cell-type codec (t= / <v> / <f> / cm per Cell x FormulaValue kind) and formula text by reduction to C09 (xlsx printer mode) + C23 (xlsx function names) + the character layer. ORACLE ONLY: styles.xml, theme, sheet properties, rows / columns, defined names, links, conditional formats, tables, doc props, the zip container — compared on whole workbooks (snapshot of vh_hist, styles by value)",
+  "the cell-type codec theorem has the law of the two Rust number primitives as an explicit premise (parse::<f64>(format!(\"{}\", v)) = v); the whole-workbook oracle exercises it on every number it generates (bit-exact comparison of cell values)",
+  "the imported workbook is compared with the original saved in the internal format, reloaded and evaluated once more (not with the original's cached values): stale or order-dependent cached values (C07 / C31) are not charged to the xlsx round trip",
+  "value-only differences (same formula text, same style) are treated as consequences when the same comparison has a classified root difference; alone they are reported as xlsx:value-changed",
+  "what to_excel_string does before printing (remove_redundant_implicit_intersection, prefix_bound_variables) and what the reader does after parsing (add_implicit_intersection) is not modelled; it is covered by the whole-workbook oracle only",
   "escape_xml and decode_xlsx_escapes are private to the xlsx crate: they are observed through save_xlsx_to_writer (the <t> contents of xl/sharedStrings.xml, read with the zip crate) and load_from_xlsx_bytes (a crafted sharedStrings.xml part), not called directly",
   "the model works on code points while the code indexes bytes of the UTF-8 encoding; the equivalence is argued in Codec/XmlEscape.v (ASCII tests at i, i+1, i+6; a matching window is four one-byte characters) and exercised with 2-, 3- and 4-byte characters at every position of the window",
   "xml_unescape models roxmltree 0.19 on text content (five entities, decimal and hex character references, CR/CRLF -> LF, '<' and non-XML characters rejected); compared with roxmltree on every string the writer produced and on hand-written references",
@@ -20,7 +24,7 @@ def run(cfg):
     return {
         "evaluations": n + meta.get("oracle_checked", 0),
         "distinct_nontrivial": meta.get("distinct_nontrivial", 0),
-        "rule": "writer (esc), importer's XML parser (xun), reader (dec) and writer+reader (rt) separately against the extracted model: all strings up to length 5 (quick) / 6 (thorough) over _ x 0 4 1 F A U+0001 <; all strings up to length 3 / 4 over a 17-symbol alphabet with & \" ' LF CR TAB, a 2-byte and a 4-byte character; exhaustive sweeps of the 7-8 character look-alike window (a b h h h h u v) incl. multi-byte characters inside the window and prefixes; 30k / 300k random strings of 6-40 characters from every plane; crafted <t> contents for the reader (window sweeps incl. surrogate values D800, lower-case hex, short strings, random, real writer output). Oracle: writer+reader returns the string. Non-trivial = strings the writer changes + contents the reader changes",
+        "rule": "writer (esc), importer's XML parser (xun), reader (dec) and writer+reader (rt) separately against the extracted model: all strings up to length 5 (quick) / 6 (thorough) over _ x 0 4 1 F A U+0001 <; all strings up to length 3 / 4 over a 17-symbol alphabet with & \" ' LF CR TAB, a 2-byte and a 4-byte character; exhaustive sweeps of the 7-8 character look-alike window (a b h h h h u v) incl. multi-byte characters inside the window and prefixes; 30k / 300k random strings of 6-40 characters from every plane; crafted <t> contents for the reader (window sweeps incl. surrogate values D800, lower-case hex, short strings, random, real writer output). Oracle: writer+reader returns the string. WHOLE WORKBOOKS: 50 (quick) / 400 (thorough) seeded user-model histories of 25 / 40 operations (vh_hist generator: inputs, array formulas, clears, row/column insert/delete/move, widths, heights, hidden flags, frozen panes, styles, borders, sheets, names, locale, links, named styles, conditional formats, autofill, copy/cut/paste, csv) exported and re-imported after EVERY operation, plus 46 coverage workbooks (every font / fill / border / alignment attribute, 48 number formats incl. the built-in codes typed as custom ones, quote prefix, row / column / named styles, widths / heights / hidden flags, 18 sheet names, sheet states / colours / frozen panes / grid lines, global and sheet-scoped names, 6 link shapes, one workbook per conditional-format rule kind (28) and one with all, every value and error kind, CSE and dynamic arrays, strings from every plane / XML specials / every C0 control / look-alikes / blanks as values, as cached formula results and inside formulas); snapshots compared line by line, every difference classified by a root-cause class computed from the original workbook; a history continues past recorded classes and stops at any other. Non-trivial = strings the writer changes + contents the reader changes + workbooks round-tripped",
         "samples": meta.get("samples", []),
         "disagreements": dis, "n_disagreements": ndis,
         "oracle_failures": meta.get("oracle_failures", []),
@@ -29,6 +33,7 @@ def run(cfg):
                   "oracle_failures_per_class": meta.get("oracle_failures_per_class", {}),
                   "known_class_members_generated": meta.get("class_members", 0),
                   "known_class_members_failing": meta.get("class_members_failing", 0),
-                  "scope": "escaping codec only",
+                  "scope": "proved: escaping codec, cell-type codec, formula text by reduction; oracle-only: the rest of the workbook",
+                  "workbooks": meta.get("workbooks", {}),
                   "model_vs_impl_cases": n, "model_vs_impl_disagreements": ndis},
     }
